@@ -16,3 +16,7 @@ mod u2f_enc;
 mod choose_alg;
 #[cfg(kani)]
 mod ad_enc;
+#[cfg(kani)]
+pub use passkey_client::WebauthnError;
+#[cfg(kani)]
+mod prf_salt;
